@@ -30,10 +30,20 @@
 
   Every function returns, next to its value, the client's `History` and the server's effect log; both
   are kept when the value is an exception.
+
+  Besides the one-expression forms (`call`, `notify`, `mkJob` + `multicall`) the file models the helper OBJECTS
+  and the state they keep between uses (`Heap`, `getAttr`, `callMethod`, `callJob`, `callMulticall`: section
+  "the client-side helper objects"), and the same exchange carried as bytes over HTTP (`runRequestWire`, on
+  JRV.Model.Wire).
+
+  Dictionaries: `PyVal.dict` is an ordered list and model equality is structural, so the model describes an
+  order-preserving JSON backend.  Key order is not part of JSON value equality nor of Python's `==`; the harness
+  compares canonically (sorted entries) — see the header of JRV.Properties.C01.
 -/
 import JRV.Model.Payload
 import JRV.Model.Client
 import JRV.Model.Server
+import JRV.Model.Wire
 
 namespace JRV.EndToEnd
 open JRV PyVal Callable Payload
@@ -339,6 +349,236 @@ def iterLen (results : PyVal) : PyM Nat :=
   | .dict kvs => pure kvs.length
   | _ => raise "Unmodelled" (.str "len of a non-container")
 
+/- ---------- the client-side helper objects and the state they keep ---------- -/
+
+/-
+  The functions above describe one expression `proxy.a.b(…)` / one freshly built `MultiCall`.  A program can
+  also KEEP the intermediate objects and use them again (`ns = proxy.ns; ns.a(); ns.b()`, one `MultiCall`
+  called twice, a `MultiCallMethod` extended by separate statements).  What such a program observes is decided
+  by the state the real classes keep, modelled here exactly:
+
+    _Method           `self.__send`, `self.__name`, never assigned after `__init__`; `__getattr__` builds a NEW
+                      `_Method(self.__send, "{0}.{1}".format(self.__name, name))`
+    _Notify           `self._request` only (no state that changes); `__getattr__` builds a new `_Method`
+    MultiCallMethod   `self.method`, `self.params` (initially `[]`), `self.notify`; `__getattr__` ASSIGNS
+                      `self.method = "{0}.{1}".format(self.method, method)` and returns `self`; `__call__`
+                      assigns `self.params`
+    MultiCallNotify   `self.multicall`; `__getattr__` appends a new `MultiCallMethod(name, notify=True)` to
+                      `self.multicall._job_list`
+    MultiCall         `self._job_list`; `__getattr__` appends a new `MultiCallMethod(name)` — at attribute access,
+                      before any call —; `_request` executes `del self._job_list[:]` right after
+                      `self._server._run_request(request_body)` returned (not when it raised, not when a
+                      `job.request()` raised, not for an empty list).
+
+  Objects are heap cells named by their index (identity); a Python variable holds a `Ref`.
+-/
+
+/-- A `_Method` object: the sender it was built with (`_request` or `_request_notify`) and `self.__name`. -/
+structure MethodObj where
+  notify : Bool
+  name : String
+deriving Repr, DecidableEq, Inhabited
+
+/-- Every helper object created so far.  `lists[i]` is the `_job_list` of the `i`-th `MultiCall`: the
+    identities (indices into `jobs`) of its `MultiCallMethod` objects, in order. -/
+structure Heap where
+  methods : List MethodObj := []
+  jobs : List Job := []
+  lists : List (List Nat) := []
+deriving Repr, DecidableEq, Inhabited
+
+/-- What a variable of the client program holds. -/
+inductive Ref where
+  | proxy                    -- the `ServerProxy`
+  | notifier                 -- a `_Notify` (the property `ServerProxy._notify` builds one per access; it has no state)
+  | method (i : Nat)         -- a `_Method`
+  | multicall (i : Nat)      -- a `MultiCall`
+  | mcNotify (i : Nat)       -- a `MultiCallNotify` of the `i`-th `MultiCall`
+  | job (k : Nat)            -- a `MultiCallMethod`
+deriving Repr, DecidableEq, Inhabited
+
+/-- `MultiCall(proxy, config=…)`. -/
+def Heap.newMulticall (hp : Heap) : Ref × Heap :=
+  (.multicall hp.lists.length, { hp with lists := hp.lists ++ [[]] })
+
+/-- `_Method(send, name)`. -/
+def Heap.newMethod (hp : Heap) (notify : Bool) (name : String) : Ref × Heap :=
+  (.method hp.methods.length, { hp with methods := hp.methods ++ [{ notify := notify, name := name }] })
+
+/-- `new_job = MultiCallMethod(name, notify=…); self._job_list.append(new_job); return new_job`. -/
+def Heap.newJob (hp : Heap) (mc : Nat) (name : String) (notify : Bool) : PyM (Ref × Heap) :=
+  match hp.lists[mc]? with
+  | Option.none => raise "Unmodelled" (.str "no such MultiCall")
+  | some l =>
+    pure (.job hp.jobs.length,
+      { hp with jobs := hp.jobs ++ [{ method := name, params := .list [], notify := notify }],
+                lists := hp.lists.set mc (l ++ [hp.jobs.length]) })
+
+/-- `getattr(obj, name)` on a helper object, with the heap afterwards.  Names that normal lookup finds on
+    the object (own attributes, dunder names of `object`) are declined, except the two properties
+    `ServerProxy._notify` and `MultiCall._notify`. -/
+def getAttr (hp : Heap) (r : Ref) (name : String) : PyM (Ref × Heap) :=
+  match r with
+  | .proxy =>
+    if name == "_notify" then pure (.notifier, hp)
+    else if proxyOwnAttrs.contains name then raise "Unmodelled" (.str "own attribute of ServerProxy")
+    else if isDunder name then raise "AttributeError" (.str name)
+    else pure (hp.newMethod false name)
+  | .notifier =>
+    if isDunder name || notifyOwnAttrs.contains name then raise "Unmodelled" (.str "own attribute of _Notify")
+    else pure (hp.newMethod true name)
+  | .method i =>
+    match hp.methods[i]? with
+    | Option.none => raise "Unmodelled" (.str "no such _Method")
+    | some mo =>
+      if isDunder name || methodOwnAttrs.contains name then raise "Unmodelled" (.str "own attribute of _Method")
+      else pure (hp.newMethod mo.notify (mo.name ++ "." ++ name))
+  | .multicall i =>
+    if name == "_notify" then
+      (if i < hp.lists.length then pure (.mcNotify i, hp) else raise "Unmodelled" (.str "no such MultiCall"))
+    else if isDunder name || multicallOwnAttrs.contains name then raise "Unmodelled" (.str "own attribute of MultiCall")
+    else hp.newJob i name false
+  | .mcNotify i =>
+    if isDunder name || multicallNotifyOwnAttrs.contains name then
+      raise "Unmodelled" (.str "own attribute of MultiCallNotify")
+    else hp.newJob i name true
+  | .job k =>
+    match hp.jobs[k]? with
+    | Option.none => raise "Unmodelled" (.str "no such MultiCallMethod")
+    | some j =>
+      if isDunder name || multicallMethodOwnAttrs.contains name then
+        raise "Unmodelled" (.str "own attribute of MultiCallMethod")
+      else pure (.job k, { hp with jobs := hp.jobs.set k { j with method := j.method ++ "." ++ name } })
+
+/-- `obj.<s1>.<s2>…` as one expression: every access is applied to the result of the previous one. -/
+def getAttrs (hp : Heap) (r : Ref) : List String → PyM (Ref × Heap)
+  | [] => pure (r, hp)
+  | seg :: rest =>
+    match getAttr hp r seg with
+    | .error e => .error e
+    | .ok (r', hp') => getAttrs hp' r' rest
+
+/-- `_Method.__call__` on an object with these fields: `self.__send(self.__name, args | kwargs)`. -/
+def sendVia (K : Codec) (c : Proxy) (p : Peer) (h : History) (fresh : String) (mo : MethodObj)
+    (args : List PyVal) (kwargs : List (PyVal × PyVal)) : Run PyVal :=
+  match methodParams args kwargs with
+  | .error e => { value := .error e, history := h, effects := [] }
+  | .ok params =>
+    if mo.notify then requestNotify K c p h fresh mo.name params else request K c p h fresh mo.name params
+
+/-- `m(*args, **kwargs)` on a `_Method`: no object changes. -/
+def callMethod (K : Codec) (c : Proxy) (p : Peer) (h : History) (fresh : String) (hp : Heap) (i : Nat)
+    (args : List PyVal) (kwargs : List (PyVal × PyVal)) : Run PyVal :=
+  match hp.methods[i]? with
+  | Option.none => { value := raise "Unmodelled" (.str "no such _Method"), history := h, effects := [] }
+  | some mo => sendVia K c p h fresh mo args kwargs
+
+/-- `job(*args, **kwargs)` on a `MultiCallMethod`: `self.params = kwargs` / `self.params = args`; returns `None`. -/
+def callJob (hp : Heap) (k : Nat) (args : List PyVal) (kwargs : List (PyVal × PyVal)) : PyM Heap :=
+  match hp.jobs[k]? with
+  | Option.none => raise "Unmodelled" (.str "no such MultiCallMethod")
+  | some j => do
+    let params ← jobParams args kwargs
+    pure { hp with jobs := hp.jobs.set k { j with params := params } }
+
+/-- The jobs a `MultiCall` holds now: its `_job_list` dereferenced. -/
+def Heap.jobsOf (hp : Heap) (i : Nat) : Option (List Job) :=
+  match hp.lists[i]? with
+  | Option.none => Option.none
+  | some l => l.mapM (fun k => hp.jobs[k]?)
+
+/-- Whether `MultiCall._request()` on these jobs reaches `del self._job_list[:]`: the list is not empty,
+    every `job.request()` rendered and `_run_request` returned (it raises when the transport does or when
+    `loads` refuses the reply). -/
+def multicallClears (K : Codec) (c : Proxy) (m : McConfig) (p : Peer) (h : History) (fresh : Nat → String)
+    (jobs : List Job) : Bool :=
+  if jobs.length < 1 then false
+  else
+    match renderJobs K m fresh 0 jobs with
+    | .error _ => false
+    | .ok texts =>
+      match (runRequest K c p h (batchBody texts)).value with
+      | .ok _ => true
+      | .error _ => false
+
+/-- `mc()` on a kept `MultiCall`: the exchange is `multicall` on the jobs the object holds NOW; afterwards the
+    object's list is empty if `del self._job_list[:]` was reached, unchanged otherwise.  (The
+    `MultiCallMethod` objects themselves stay alive: a kept reference to one can still be extended or called,
+    without effect on later batches.) -/
+def callMulticall (K : Codec) (c : Proxy) (m : McConfig) (p : Peer) (h : History) (fresh : Nat → String)
+    (hp : Heap) (i : Nat) : Run McResult × Heap :=
+  match hp.jobsOf i with
+  | Option.none => ({ value := raise "Unmodelled" (.str "no such MultiCall"), history := h, effects := [] }, hp)
+  | some js =>
+    (multicall K c m p h fresh js,
+     if multicallClears K c m p h fresh js then { hp with lists := hp.lists.set i [] } else hp)
+
+/-- A job description: notification?, attribute path, positional arguments, keywords. -/
+abbrev JobCall := Bool × List String × List PyVal × List (PyVal × PyVal)
+
+/-- `mc.<path>(*args, **kwargs)` / `mc._notify.<path>(*args, **kwargs)` on a kept `MultiCall`, as the object
+    operations it consists of. -/
+def addJob (hp : Heap) (i : Nat) (notify : Bool) (path : List String) (args : List PyVal)
+    (kwargs : List (PyVal × PyVal)) : PyM Heap :=
+  match (if notify then getAttr hp (.multicall i) "_notify" else pure (.multicall i, hp)) with
+  | .error e => .error e
+  | .ok (r0, hp0) =>
+    match path with
+    | [] => raise "Unmodelled" (.str "no attribute access")
+    | _ :: _ =>
+      match getAttrs hp0 r0 path with
+      | .error e => .error e
+      | .ok (.job k, hp1) => callJob hp1 k args kwargs
+      | .ok _ => raise "Unmodelled" (.str "not a MultiCallMethod")
+
+/-- Several such statements, one after the other. -/
+def addJobs (hp : Heap) (i : Nat) : List JobCall → PyM Heap
+  | [] => pure hp
+  | (notify, path, args, kwargs) :: rest =>
+    match addJob hp i notify path args kwargs with
+    | .error e => .error e
+    | .ok hp' => addJobs hp' i rest
+
+/- ---------- the same exchange over HTTP: bytes, reads and chunks (JRV.Model.Wire) ---------- -/
+
+/-- What the network and the two HTTP stacks are free to do with one exchange: how many bytes each
+    `rfile.read` of `do_POST` returns at most, what follows the body on the connection, and how the reply bytes
+    are cut into the pieces `JSONTarget.feed` receives (`Transport.parse_response` reads 1024 bytes at a time; a
+    socket may deliver less). -/
+structure WireSchedule where
+  maxChunk : Nat := Wire.maxChunkSize
+  rest : Wire.Bytes := []
+  reads : List Nat
+  chunks : Wire.Bytes → List Wire.Bytes
+
+/-- The reads deliver the announced number of bytes (fault-free network: no short body). -/
+def WireSchedule.complete (w : WireSchedule) (request : String) : Prop :=
+  Wire.readTotal w.maxChunk (Wire.toBytes request).length (Wire.toBytes request ++ w.rest) w.reads =
+    (Wire.toBytes request).length
+
+/-- The pieces of a reply are its bytes, in order (fault-free network: nothing lost, nothing added). -/
+def WireSchedule.faithful (w : WireSchedule) : Prop := ∀ b, (w.chunks b).flatten = b
+
+/-- `ServerProxy._run_request` when the transport is HTTP: the request text goes out as its UTF-8 bytes with
+    `Content-Length` = their number (`C17_content_length`), `do_POST` collects the body with the read loop and
+    decodes it once (`Wire.serverBody`), hands the text to `_marshaled_dispatch` (`serve`), writes the reply text
+    as its UTF-8 bytes (`C17_do_post_framing`), which reach `JSONTarget` in pieces and are decoded once at
+    `close()` (`Wire.clientClose`).  A 500 reply / an undecodable reply are outside this model (declined). -/
+def runRequestWire (K : Codec) (c : Proxy) (p : Peer) (h : History) (w : WireSchedule) (request : String) :
+    Run PyVal :=
+  let h1 := h.addRequest request
+  match Wire.serverBody w.maxChunk (Wire.toBytes request).length (Wire.toBytes request ++ w.rest) w.reads with
+  | .error _ => { value := raise "Unmodelled" (.str "500 reply"), history := h1, effects := [] }
+  | .ok data =>
+    match serve K p data with
+    | (.error e, eff) => { value := .error e, history := h1, effects := eff }
+    | (.ok reply, eff) =>
+      match Wire.clientClose (w.chunks (Wire.toBytes reply)) with
+      | .raw _ => { value := raise "Unmodelled" (.str "undecodable reply"), history := h1, effects := eff }
+      | .text t =>
+        { value := if t == "" then pure .none else loadsK K c.cfg c.unconv t,
+          history := h1.addResponse t, effects := eff }
+
 /- ---------- payloads the class translator leaves alone ---------- -/
 
 mutual
@@ -381,5 +621,32 @@ def multicallVersion : Nat := 20
 theorem jobRequest_version (K : Codec) (m : McConfig) (fresh : String) (j : Job) :
     jobRequest K m fresh j =
       dumpsK K m.cfg m.conv fresh (.val j.params) (.str j.method) .none (.num multicallVersion) false j.notify := rfl
+
+/-- The test under which `ServerProxy.__getattr__` refuses a name, as the extractor reports it: the class raised,
+    the connective, the tests on the name. -/
+def dunderTest : String × String × List (String × String) :=
+  ("AttributeError", "and", [("startswith", "__"), ("endswith", "__")])
+
+/-- `name.startswith(lit)` / `name.endswith(lit)`. -/
+def evalNameAtom (name : String) (a : String × String) : Bool :=
+  if a.1 == "startswith" then name.toList.take a.2.length == a.2.toList
+  else if a.1 == "endswith" then name.toList.reverse.take a.2.length == a.2.toList.reverse
+  else false
+
+/-- A conjunction / disjunction of such tests. -/
+def evalNameTest (conn : String) (atoms : List (String × String)) (name : String) : Bool :=
+  if conn == "and" then atoms.all (evalNameAtom name) else atoms.any (evalNameAtom name)
+
+/-- `ServerProxy.__getattr__` answers every other name with `_Method(self._request, name)`. -/
+def proxyGetattrShape : String × String × String := ("_Method", "_request", "name")
+/-- `_Method.__getattr__`: `"__name__"` is answered with the name; every other name with a NEW
+    `_Method(self.__send, "{0}.{1}".format(self.__name, name))`; no attribute of `self` is assigned
+    (`getAttr` on a `Ref.method`: a new cell, the heap otherwise unchanged). -/
+def methodGetattrShape : List String × String × Bool × Bool := (["__name__"], "{0}.{1}", true, true)
+/-- `MultiCallMethod.__getattr__`: `self.method = "{0}.{1}".format(self.method, method); return self`
+    (`getAttr` on a `Ref.job`: the cell is overwritten, the same reference is returned). -/
+def jobGetattrShape : String × Bool × Bool := ("{0}.{1}", true, true)
+/-- `MultiCall._request`: `del self._job_list[:]` is the statement after the `_run_request` call (`multicallClears`). -/
+def clearsJobsWhen : String := "after-run-request"
 
 end JRV.EndToEnd
